@@ -355,7 +355,7 @@ theorem events_prefix (tran d : List Nat) (k : Nat) (hk : k ≤ d.length) :
   | succ k ih =>
     rw [List.range_succ, List.flatMap_append, ih (by omega), List.flatMap_singleton, eventsAt_eq tran d k (by omega)]
     have : (d.take (k + 1)).reverse = d.getD k 0 :: (d.take k).reverse := by
-      rw [List.take_succ, List.reverse_append]
+      rw [List.take_add_one, List.reverse_append]
       simp [List.getD_eq_getElem?_getD, List.getElem?_eq_getElem (show k < d.length by omega)]
     rw [this, evR]
 
